@@ -6,7 +6,9 @@ from vf import gen_shell
 
 BASE_POOL = ['Toaster', 'File_1', 'model', 'X', 'MyModel', 'a']
 SUFFIX_POOL = ['Shell', 'AdvShell', '_adv', 'X', 'Shell2']
-PREFIX_POOL = [None, None, ['My'], ['Lib', 'Util'], ['a', 'b', 'c'], ['Company_1']]
+# incl. prefixes that repeat the name the generator appends itself (Dzn)
+PREFIX_POOL = [None, None, ['My'], ['Lib', 'Util'], ['a', 'b', 'c'], ['Company_1'], ['Dzn'],
+               ['Acme', 'Dzn'], ['Dzn', 'Tools']]
 COPYRIGHTS = ['Copyright (c) me', '(c) A\nline two\n\n  indented', '', 'x */ #include <y> \\',
               'tab\tsep\x0cform feed', '// already a comment', 'cafe\u0301 \u2126 A\u030a (not NFC)',
               '\u00e9 \u00fc \u00a9 precomposed',
